@@ -646,6 +646,9 @@ func checkC11Reconn(ix *index, add addFn) {
 					add("returns", "reconnecting Disconnect did not return by its context's deadline", feat)
 				}
 			}
+			if op.Token == "must-return" && (o.ret < 0 || o.ret >= ix.end()) && ix.judge >= 0 {
+				add("returns", "reconnecting Disconnect (called while connected / backing off) had not returned when the run was judged", feat)
+			}
 			// without a deadline nothing is demanded here: Disconnect's context is
 			// alive and whether the loop can observe the request in its current
 			// phase is C09's disconnect-returns rule
